@@ -32,7 +32,7 @@ if rnd:
     prev = []
     for m in sorted(glob.glob(os.path.join(V, 'seeded', pid + '-*', 'meta.json'))):
         prev.append('  - ' + json.load(open(m))['breaks'])
-    txt += ('\nThis is a SECOND round. The following changes were already produced in an earlier round; do not repeat them or '
+    txt += ('\nThis is a FURTHER round. The following changes were already produced in earlier rounds; do not repeat them or '
             'close variants of them - look for different code sites, different clauses of the property, different kinds of '
             'slip (state kept across calls, rarely used argument forms, error paths, boundary values, interactions between two '
             'features, configuration switches):\n' + '\n'.join(prev) + '\n')
